@@ -54,6 +54,8 @@ def run(ck):
         strat = ["random", rng.randrange(10 ** 9), 0.5] if i % 3 else ["pct", rng.randrange(10 ** 9), 4, 300]
         tasks.append({"scen": "stack", "params": p, "strat": strat, "gran": "line" if i % 6 == 0 else "sync",
                       "lock_log": True,
+                      "lock_key": "stack/%s/%s/%s" % (p["base"], ",".join(l["t"] for l in p["layers"]),
+                                                      bool(p.get("shutdown"))),
                       "facts": {"base": p["base"], "nested": any(s.get("nested") or s.get("nested_cb") for s in p["subs"]),
                                 "retry": any(l["t"] == "retry" for l in p["layers"])}})
     pairs = ck.run_and_validate(tasks, TRACE)
@@ -64,5 +66,5 @@ def run(ck):
     # cancellation / callback registration); its behaviours replayed in the code; random executions including the
     # combination that TLC shows to deadlock (D16: FutureChain.d16.cfg), whose lock programs go through LockCases too
     cpairs = chain.run(ck, quick, rng, d16=True)
-    ck.lock_cycles(cpairs, chain.TRACE)
+    ck.lock_cycles(cpairs, chain.TRACE, patience=100)
     ck.assumptions += ["shutdown is called by a single thread", "every scripted callable terminates; horizon 60 s virtual"]
